@@ -33,7 +33,11 @@ T2JFields(fs, fields, defs, o, acc) ==
          un == SelectSeq(fields, LAMBDA f : f.id \notin seen) IN
      IF \E i \in 1..Len(un) : Unset(un[i], o) = "err" THEN TErr("MissRequired")
      ELSE LET fill == SelectSeq(un, LAMBDA f : Unset(f, o) = "write")
-              fj == [i \in 1..Len(fill) |-> T2JV(FillOf(fill[i], o), fill[i].ty, defs, o)] IN
+              \* a filled struct is written as {} - it is not filled recursively (and recursive types would not terminate)
+              \* (a filled i64 under Int642String may be written as number or string: the property does not say)
+              fj == [i \in 1..Len(fill) |-> IF fill[i].ty.t = T_STRUCT THEN TOk(JObj(<<>>))
+                                            ELSE IF fill[i].ty.t = T_I64 /\ o.i2s THEN TOk(JX("intany", FillOf(fill[i], o).b))
+                                            ELSE T2JV(FillOf(fill[i], o), fill[i].ty, defs, o)] IN
           [ok |-> TRUE, err |-> "", np |-> Len(acc),
            j |-> JObjNp([i \in 1..Len(acc) |-> acc[i].m] \o [i \in 1..Len(fill) |-> JMem("str", fill[i].key, fj[i].j)], Len(acc))]
   ELSE LET f == Head(fs)  k == FieldIdx(fields, f.id) IN
